@@ -1,7 +1,7 @@
 PID = "C20"
 WORKER = "w_c20"
 HEADER = ("From Coq Require Import List ZArith QArith Qcanon Bool.\n"
-          "From Dimod Require Import Base.Util Model.Poly Model.Adj Model.AdjMore Proofs.AdjFacts Model.ChkC20 Model.Expr Model.ExprOps Model.ChkC20Cqm.\n"
+          "From Dimod Require Import Base.Util Model.Poly Model.Adj Model.AdjMore Proofs.AdjFacts Model.ChkC20 Model.Expr Model.ExprOps Model.ChkC20Cqm Model.DqmNative Model.ChkC20Dqm.\n"
           "Import ListNotations.\nOpen Scope Qc_scope.")
 CHECK_FN = "check"
 N_QUICK = 1600
@@ -9,7 +9,7 @@ N_THOROUGH = 12000
 SHARD = 60
 TIMEOUT = 3000
 SHRINK_KEYS = ["ops", "calls"]
-RULE = ("three case kinds. cpp_models (50%): random op lists (4-28 ops quick, 4-60 thorough) on two QuadraticModel<double,int> and two "
+RULE = ("four case kinds. cpp_models (46%): random op lists (4-28 ops quick, 4-60 thorough) on two QuadraticModel<double,int> and two "
         "BinaryQuadraticModel<double,int> objects executed by cpp/driver.cpp, which is compiled on every run against <tree>/dimod/include "
         "with ASan+UBSan, -UNDEBUG and -D_GLIBCXX_ASSERTIONS; ops: add_variable(s) with/without bounds, add/set linear, offset, "
         "add/set quadratic (domain_error caught), add_quadratic_back (only when its ordering promise holds), dense (double and long), "
@@ -18,12 +18,13 @@ RULE = ("three case kinds. cpp_models (50%): random op lists (4-28 ops quick, 4-
         "vartype, clear, copy ctor / assignment (incl. self), move ctor / assignment (source then cleared or assigned), swap, "
         "QM(BQM) both constructors, BQM dense constructor, energy; all arguments within the documented preconditions (filtered against "
         "the state the driver printed); after EVERY op the raw state of all four objects is compared with the Coq model and inv_b is "
-        "evaluated on model and observed state. cpp_cqm (30%): ops on ConstrainedQuadraticModel / Constraint / Expression (labels API, "
+        "evaluated on model and observed state. cpp_cqm (27%): ops on ConstrainedQuadraticModel / Constraint / Expression (labels API, "
         "add_constraint copy/move/from QM/linear, set_objective, remove/fix/substitute variables, fix_variables, remove constraints, "
-        "copy/move/swap of whole CQMs, weak_ptr) with the native invariant after every op. py (20%): 6 malformed calls each against "
+        "copy/move/swap of whole CQMs, weak_ptr) with the native invariant after every op. py_dqm (11%): histories (3-24 calls quick, 3-50 thorough) of VALID calls on a real DiscreteQuadraticModel, through the Python wrapper with labels that differ from the indices or on the Cython object: add_variable (1-3 cases, <= 5 variables), set_linear, set_linear_case, set_quadratic_case with the two variables in either order, set_quadratic with a dict or a dense array (zeros skipped), add_linear_equality_constraint (duplicate cases, repeated variables, empty), offset, copy (history continues on the copy, the original is re-read at the end), to_numpy_vectors -> from_numpy_vectors (continues on the rebuilt object); after EVERY call the raw adj_, case starts, the case-level BQM (neighbourhood order as emitted), both interaction counts, every degree, get_quadratic of every ordered pair (dict, array form and get_quadratic_case cross-checked) and two energies are compared with Model/DqmNative.v, and dinv_b is evaluated on the model and on the observed state. py (16%): 6 malformed calls each against "
         "BQM (float64/float32/object), QM, CQM, DQM in child interpreters, 10 s limit per call; thorough adds a valgrind sample. "
         "non-trivial = at least 3 executed ops / any py case; distinct by case JSON")
-TRUSTED = ["model: coq/theories/Model/Adj.v, AdjMore.v, ChkC20.v (hand written mirror of abc.h, binary_quadratic_model.h, quadratic_model.h, utils.h)",
+TRUSTED = ["model for the py_dqm cases: coq/theories/Model/DqmNative.v, ChkC20Dqm.v (hand written mirror of cydiscrete_quadratic_model.pyx)",
+           "model: coq/theories/Model/Adj.v, AdjMore.v, ChkC20.v (hand written mirror of abc.h, binary_quadratic_model.h, quadratic_model.h, utils.h)",
            "model for the cq.* ops: coq/theories/Model/Expr.v, ExprOps.v (g9's mirror of expression.h / constrained_quadratic_model.h), ChkC20Cqm.v",
            "cpp/driver.cpp (executes the ops, prints the state through the public C++ API, re-checks the invariant natively)",
            "clang++ 14 -fsanitize=address,undefined with libstdc++ assertions: a run without report is taken to be free of the UB classes these tools detect",
@@ -32,7 +33,8 @@ ASSUMPTIONS = ["biases are small dyadic rationals (|x| < 2^16, denominators <= 2
                "floating point operation of the implementation is exact and comparison with the rational model is exact",
                "moved-from objects are only cleared or assigned to, as the standard library guarantees no more",
                "sanitizers see the header code compiled into the driver, not the code compiled into the Python extension (that half is covered by the child-interpreter stream and valgrind)"]
-PARTIAL = ["every cq.* op of the driver now has a Coq-side model (Model/ChkC20Cqm.v over g9's Model/Expr.v + ExprOps.mstep) and every dump of "
+PARTIAL = ["cyDiscreteQuadraticModel: the invariant (case-level BQM invariant, case starts, adj_ strictly sorted / symmetric / self-free / covering every case interaction) is proved preserved by EVERY modelled call, the to_numpy_vectors/from_numpy_vectors rebuild included (C20_dqm_every_step_preserves_invariant); for the rebuild only 'no interaction is invented' is a theorem, that none is lost and the bias values are compared per case; energies, get_quadratic and to_numpy_vectors are compared per case, without a theorem relating them to the polynomial; translators/dqm_native_shapes.py ties the model to the .pyx source for the two track-in-adjacency blocks and the energies break (generated definitions proved equal to the model's: C20_dqm_track_generated, C20_dqm_energy_break_generated) and recognises, fail-closed, the per-case cursor reset of the adjacency rebuild and the five-branch merge loop; the rest of DqmNative.v is hand written; the DQM file format and CaseLabelDQM are not part of this stream",
+           "every cq.* op of the driver now has a Coq-side model (Model/ChkC20Cqm.v over g9's Model/Expr.v + ExprOps.mstep) and every dump of "
            "both CQM objects is compared: variable info, per expression variables() order, linear by position, offset, quadratic per "
            "unordered pair (sum + presence), constraint attributes (sense, rhs, weight, penalty, discrete marker), the values returned "
            "by energy and is_disjoint, expr_ok on the observed state; NOT compared: weak_ptr expiry (executed under the sanitizers only), "
